@@ -16,6 +16,7 @@ from typing import Dict, List, Tuple
 
 from ..index import AnalysisError, Index, call_name, norm, walk_no_nested
 from ..report import Report
+from ..rules import cfg_of
 from ..walkersdb import WalkerDB
 
 
@@ -105,16 +106,30 @@ def run(idx: Index, rep: Report, tier: str) -> None:
                 cur = cur.orelse[0] if len(cur.orelse) == 1 and isinstance(cur.orelse[0], ast.If) else None
         return None
 
-    # De Morgan in the rebuild phase
+    # De Morgan in the rebuild phase: decided on the path facts at each And(...) / Or(...) construction, so that
+    # `if e.is_and(): … elif e.is_or(): … else: raise` and `if not e.is_or(): raise` + fall-through are the same code
+    from ..rules2 import path_facts
+
+    ncfg = cfg_of(nn)
+    seen_cells = {}
+    for nd in ncfg.nodes:
+        if nd.ast is None or nd.kind != "stmt":
+            continue
+        calls = [c for c in ast.walk(nd.ast) if isinstance(c, ast.Call) and call_name(c) in ("And", "Or") and isinstance(c.func, ast.Attribute)]
+        if len(calls) != 1:
+            continue
+        facts = path_facts(ncfg, nd)
+        if ("status", True) not in facts:
+            continue
+        kind = "is_and" if ("e.is_and()", True) in facts else "is_or" if (("e.is_or()", True) in facts or ("e.is_and()", False) in facts) else None
+        pol = True if ("p", True) in facts else False if ("p", False) in facts else None
+        if kind is None or pol is None:
+            continue
+        seen_cells.setdefault((kind, pol), []).append((call_name(calls[0]), nd.ast))
     for pred, pos, neg in (("is_and", "And", "Or"), ("is_or", "Or", "And")):
-        b = branch(rebuild, pred)
-        ok = False
-        if b is not None:
-            inner = [i for i in b.body if isinstance(i, ast.If) and norm(i.test) == "p"]
-            if inner:
-                t = [c for s in inner[0].body for c in ast.walk(s) if isinstance(c, ast.Call) and call_name(c) in ("And", "Or")]
-                e = [c for s in inner[0].orelse for c in ast.walk(s) if isinstance(c, ast.Call) and call_name(c) in ("And", "Or")]
-                ok = len(t) == 1 and len(e) == 1 and call_name(t[0]) == pos and call_name(e[0]) == neg
+        t, e = seen_cells.get((pred, True), []), seen_cells.get((pred, False), [])
+        ok = len(t) == 1 and len(e) == 1 and t[0][0] == pos and e[0][0] == neg
+        b = (t or e or [(None, None)])[0][1]
         rep.check(ok, rule2, f"rebuild {pred[3:].upper()}: positive polarity -> {pos}, negative -> {neg}", nn.loc(b) if b is not None else nn.loc(), construct=f"{pred}: p ? {pos} : {neg}", detail="" if ok else "De Morgan's law is not applied (or applied under the wrong polarity)", function=nn.qualname)
 
     def pushes(stmts) -> List[Tuple[str, str, str]]:
